@@ -940,10 +940,10 @@ pub fn tnv(out: &mut Vec<u8>, tag: u8, name: &[u8], val: &[u8]) {
     out.extend_from_slice(val);
 }
 
-pub const FAMILIES: [&str; 20] = [
+pub const FAMILIES: [&str; 23] = [
     "nest", "nest-noname", "set-width", "attr-count", "group-count", "member-count", "value-len", "name-len", "unterminated", "endcoll-flood",
     "member-flood", "addl-no-attr", "coll-set", "nest-multi", "name-invalid-utf8", "value-invalid-utf8", "member-count-desc", "member-count-shuffled",
-    "attr-count-desc", "wide-then-many",
+    "attr-count-desc", "wide-then-many", "set-width-mixed", "member-width-mixed", "set-width-strings",
 ];
 
 /// input family `fam` with about `n` bytes of attribute data
@@ -993,6 +993,34 @@ pub fn family(fam: &str, n: usize) -> Vec<u8> {
             tnv(&mut v, 0x21, b"s", &[0, 0, 0, 0]);
             for i in 0..(n / 9) {
                 tnv(&mut v, 0x21, b"", &(i as u32).to_be_bytes());
+            }
+        }
+        // one wide set whose values carry many different tags (keyword first, then integers, enums, booleans, out-of-band, octets, text ...)
+        "set-width-mixed" | "member-width-mixed" => {
+            let tags: [(u8, &[u8]); 8] = [(0x21, &[0, 0, 0, 7]), (0x23, &[0, 0, 0, 3]), (0x22, &[1]), (0x13, &[]), (0x30, &[1, 2, 3]), (0x41, b"txt"), (0x44, b"kw"), (0x33, &[0, 0, 0, 1, 0, 0, 0, 2])];
+            if fam == "member-width-mixed" {
+                tnv(&mut v, 0x34, b"c", b"");
+                tnv(&mut v, 0x4a, b"", b"m");
+                tnv(&mut v, 0x44, b"", b"first");
+            } else {
+                tnv(&mut v, 0x44, b"s", b"first");
+            }
+            let mut used = 0;
+            let mut i = 0;
+            while used < n {
+                let (t, body) = tags[i % tags.len()];
+                tnv(&mut v, t, b"", body);
+                used += 5 + body.len();
+                i += 1;
+            }
+            if fam == "member-width-mixed" {
+                tnv(&mut v, 0x37, b"", b"");
+            }
+        }
+        "set-width-strings" => {
+            tnv(&mut v, 0x44, b"s", b"k");
+            for i in 0..(n / 13) {
+                tnv(&mut v, 0x44, b"", format!("kw{i:06}").as_bytes());
             }
         }
         "coll-set" => {
